@@ -15,7 +15,7 @@ THEOREMS = {
     'C09': ['BB.Lemmas.walk_layout', 'BB.Props.C03.assemble_layout'] + ['BB.Props.C09.' + n for n in ['assemble_in_order', 'Expands.parts', 'Img.bytes_of_blobs', 'align_minimal', 'align_zero', 'align_emits_zeros']],
     'C10': ['BB.Props.C10.' + n for n in ('fromLE_leBytes', 'packInt_accept_iff', 'packInt_le_value', 'packInt_be_reverse',
                                           'seq_elem_accept_iff')] + ['BB.Props.C03.assemble_layout'],
-    'C11': ['BB.Props.TablesFront.formatOf_matches', 'BB.Props.TablesFront.inDict_matches', 'BB.Props.TablesFront.pseudo_matches', 'BB.Props.TablesFront.baseOffset_matches', 'BB.Props.TablesFront.numericSequence_matches', 'BB.Props.TablesFront.shorthandPack_matches'] + ['BB.Props.C11.eval_lit', 'BB.Props.C11.eval_name', 'BB.Props.C11.eval_unknown_name', 'BB.Props.C11.eval_binary', 'BB.Props.C11.eval_unary', 'BB.Props.C11.eval_binary_err_left', 'BB.Props.C11.eval_add', 'BB.Props.C11.eval_sub', 'BB.Props.C11.eval_mul', 'BB.Props.C11.eval_floordiv', 'BB.Props.C11.eval_mod', 'BB.Props.C11.eval_div_zero', 'BB.Props.C11.eval_mod_zero', 'BB.Props.C11.eval_truediv', 'BB.Props.C11.eval_shl', 'BB.Props.C11.eval_shr', 'BB.Props.C11.eval_shift_negative', 'BB.Props.C11.eval_and', 'BB.Props.C11.eval_or', 'BB.Props.C11.eval_xor', 'BB.Props.C11.eval_pos', 'BB.Props.C11.eval_neg', 'BB.Props.C11.eval_inv', 'BB.Props.C11.floordiv_floor', 'BB.Props.C11.mod_spec', 'BB.Props.C11.shr_floor', 'BB.Props.C11.and_bits', 'BB.Props.C11.or_bits', 'BB.Props.C11.xor_bits', 'BB.Props.C11.inv_bits', 'BB.Props.C11.lit_dec', 'BB.Props.C11.lit_hex', 'BB.Props.C11.lit_bin', 'BB.Props.C11.int_spelling', 'BB.Props.C11.lit_arith', 'BB.Props.C11.prec_two_ops', 'BB.Props.C11.unary_binds_tighter', 'BB.Props.C11.unary_stacks', 'BB.Props.C11.parens_override', 'BB.Props.C11.parse_render', 'BB.Props.C11.eval_render'],
+    'C11': ['BB.Props.TablesFront.formatOf_matches', 'BB.Props.TablesFront.inDict_matches', 'BB.Props.TablesFront.pseudo_matches', 'BB.Props.TablesFront.baseOffset_matches', 'BB.Props.TablesFront.numericSequence_matches', 'BB.Props.TablesFront.shorthandPack_matches'] + ['BB.Props.C11.eval_lit', 'BB.Props.C11.eval_name', 'BB.Props.C11.eval_unknown_name', 'BB.Props.C11.eval_binary', 'BB.Props.C11.eval_unary', 'BB.Props.C11.eval_binary_err_left', 'BB.Props.C11.eval_add', 'BB.Props.C11.eval_sub', 'BB.Props.C11.eval_mul', 'BB.Props.C11.eval_floordiv', 'BB.Props.C11.eval_mod', 'BB.Props.C11.eval_div_zero', 'BB.Props.C11.eval_mod_zero', 'BB.Props.C11.eval_truediv', 'BB.Props.C11.eval_shl', 'BB.Props.C11.eval_shr', 'BB.Props.C11.eval_shift_negative', 'BB.Props.C11.eval_and', 'BB.Props.C11.eval_or', 'BB.Props.C11.eval_xor', 'BB.Props.C11.eval_pos', 'BB.Props.C11.eval_neg', 'BB.Props.C11.eval_inv', 'BB.Props.C11.floordiv_floor', 'BB.Props.C11.mod_spec', 'BB.Props.C11.shr_floor', 'BB.Props.C11.and_bits', 'BB.Props.C11.or_bits', 'BB.Props.C11.xor_bits', 'BB.Props.C11.inv_bits', 'BB.Props.C11.lit_dec', 'BB.Props.C11.lit_hex', 'BB.Props.C11.lit_bin', 'BB.Props.C11.int_spelling', 'BB.Props.C11.lit_arith', 'BB.Props.C11.prec_two_ops', 'BB.Props.C11.unary_binds_tighter', 'BB.Props.C11.unary_stacks', 'BB.Props.C11.parens_override', 'BB.Props.C11.parse_render', 'BB.Props.C11.eval_render'] + ['BB.Props.C11.' + n for n in ['eval_litOf', 'subst_transparent', 'subst_render', 'alias_transparent', 'alias_other']],
     'C13': ['BB.Props.TablesFront.formatOf_matches', 'BB.Props.TablesFront.inDict_matches', 'BB.Props.TablesFront.pseudo_matches', 'BB.Props.TablesFront.baseOffset_matches', 'BB.Props.TablesFront.numericSequence_matches', 'BB.Props.TablesFront.shorthandPack_matches'] + ['BB.Props.C13.sep_irrelevant', 'BB.Props.C13.sep_irrelevant_item', 'BB.Props.C13.blank_line', 'BB.Props.C13.comment_only_line', 'BB.Props.C13.blank_or_comment_no_item', 'BB.Props.C13.reg_spelling', 'BB.Props.C13.base_offset_mnemonics', 'BB.Props.C13.base_offset_forms_load', 'BB.Props.C13.base_offset_forms_store', 'BB.Props.C13.base_offset_load_item', 'BB.Props.C13.lex_paren_form', 'BB.Props.C13.lex_flat_form', 'BB.Props.C13.base_offset_source_load', 'BB.Props.C13.base_offset_source_store'],
     'C07': ['BB.Props.C07.' + n for n in ('hi_range', 'lo_range', 'hi_lo_sum', 'hi_lo_sum_exact', 'utype_accepts_hi',
                                           'itype_accepts_lo', 'stype_accepts_lo', 'pair_rebuilds')],
